@@ -138,6 +138,11 @@ def _parse_linear_gradient(
 
     common_args = _common_gradient_parts(grad_el, shape_opacity)
 
+    if p0 == p1 and common_args["stops"]:
+        # SVG: a zero-length gradient vector paints the area with the last stop's
+        # color; COLR treats p0 == p1 as ill-formed and renders nothing at all
+        return PaintSolid(color=common_args["stops"][-1].color)
+
     transform = _get_gradient_transform(
         config, grad_el, shape_bbox, view_box, glyph_width
     )
@@ -164,6 +169,10 @@ def _parse_radial_gradient(
 
     gradient_args = {"c0": c0, "c1": c1, "r0": r0, "r1": r1}
     gradient_args.update(_common_gradient_parts(grad_el, shape_opacity))
+
+    if r1 == 0 and gradient_args["stops"]:
+        # SVG: r="0" paints the area with the last stop's color
+        return PaintSolid(color=gradient_args["stops"][-1].color)
 
     transform = _get_gradient_transform(
         config, grad_el, shape_bbox, view_box, glyph_width
